@@ -261,12 +261,14 @@ ClientRoundTrip(r, o) ==
     Expressible(r, "client-wsgi") => View(ClientSends(ToClientArgs(r)), o) = View(r, o)
 
 (* ------------------------------------------------------------------ generated application logic *)
-(* Responders of the generated application.  A "plain" responder sets a status, at most one body
-   source and optionally a Content-Type of its own (p = [status, source, ctype]); the other kinds are
-   fixed scripts (errors, redirects, cookies, repeated fields ...).  Each must produce its status
-   once reached. *)
-PlainSources == {"none", "text", "data", "media", "stream"}
-NoPlain == [status |-> 200, source |-> "none", ctype |-> FALSE]
+(* Responders of the generated application.  A "plain" responder sets a status, any COMBINATION of the
+   body sources -- text, data, media each left unset, set to the empty value ('', b'', {}) or to a
+   non-empty one; a stream or none -- and optionally a Content-Type of its own
+   (p = [status, text, data, media, stream, ctype]); the other kinds are fixed scripts (errors, redirects,
+   cookies, repeated fields ...).  Each must produce its status once reached; which source wins is C05's
+   subject, here the four drivers must show the same response. *)
+Tri == {"unset", "empty", "set"}
+NoPlain == [status |-> 200, text |-> "unset", data |-> "unset", media |-> "unset", stream |-> FALSE, ctype |-> FALSE]
 ResponderStatus(k, p) ==
     CASE k = "plain" -> p.status
       [] k = "echo" -> 200 [] k = "text" -> 201 [] k = "data" -> 200 [] k = "stream" -> 200
@@ -278,4 +280,15 @@ ResponderStatus(k, p) ==
    kept by the framework, so that driver raises instead of returning a result. *)
 Reportable(iface, k, p) ==
     iface = "client-wsgi" => ~(k = "plain" /\ p.status \in {204, 304} /\ p.ctype)
+
+(* ------------------------------------------------------------------ histories *)
+(* One application object serves many requests.  The mutable containers the API hands out with a
+   request or its response (req.params, req.context, the req.cookies / req.headers mappings, the
+   env / scope of the request, resp.context) belong to that request: what the application writes into
+   them while serving request k is invisible to every later request.  Hence the view of request n --
+   the containers' initial content included -- is a function of request n alone
+   (ViewIndependentOfHistory; state machine and wrong-design switch in ServerIfaceHistory.tla). *)
+Containers == {"params", "context", "cookies", "headers", "extras", "resp_context"}
+ViewInHistory(h, n, o) == View(h[n], o)        \* h: sequence of requests served by one application object
+
 =============================================================================
